@@ -17,6 +17,9 @@ def step (s : State) (toks : List String) : State × String :=
   | "msg" :: _ => (s, (MsgEmit.handle toks).getD "bad-op")
   | "resp" :: _ => (s, (MsgEmit.handle toks).getD "bad-op")
   | "rt" :: _ => (s, (MsgEmit.handle toks).getD "bad-op")
+  | "badrec" :: _ => (s, (MsgEmit.handle toks).getD "bad-op")
+  | "respb" :: _ => (s, (MsgEmit.handle toks).getD "bad-op")
+  | "cat" :: _ => (s, "~")
   | _ => (s, "bad-op")
 
 end HickoryVerif.Drv.C03
